@@ -186,6 +186,7 @@ def repo_wp(com_j, post_j):
 
 
 _PROBE_POSTS = [['<=', ['v', v], ['n', 1]] for v in VARS] + \
+    [['ite', ['<=', ['v', 'a'], ['v', 'b']], ['<=', ['v', 'c'], ['v', 'i']], ['<=', ['v', 'n'], ['v', 's']]]] + \
     [['<=', ['+', ['+', ['v', 'a'], ['*', ['n', 2], ['v', 'b']]], ['+', ['*', ['n', 3], ['v', 'c']],
                                                                         ['+', ['*', ['n', 5], ['v', 'i']],
                                                                          ['+', ['*', ['n', 7], ['v', 'n']],
@@ -1139,7 +1140,30 @@ def strategies(kind):
             return ['while', g, inv, body]
 
         @st.composite
+        def stale(draw):
+            """Invariant true at loop entry but not inductive; postcondition follows from invariant & ~guard (or is
+            drawn).  A generator that does not demand preservation of the invariant accepts these."""
+            v = draw(st.sampled_from(VARS))
+            others = [x for x in VARS if x != v]
+            e0 = draw(st.one_of(st.integers(0, 2).map(lambda k: ['n', k]), st.sampled_from(others).map(lambda x: ['v', x])))
+            bound = draw(st.one_of(st.sampled_from(others).map(lambda x: ['v', x]), st.integers(2, 5).map(lambda k: ['n', k])))
+            inv = [draw(st.sampled_from(['==', '<=', '=='])), ['v', v], e0]
+            g = ['<', ['v', v], bound]
+            body = ['asg', v, ['+', ['v', v], ['n', 1]]]
+            if draw(st.booleans()):
+                w = draw(st.sampled_from(others))
+                body = ['seq', ['asg', w, draw(small_expr)], body] if ['v', w] not in (e0, bound) else body
+            d = draw(st.integers(0, 2))
+            post = draw(st.one_of(st.just(inv), st.just(['<=', ['v', v], ['+', e0, ['n', d]]]),
+                                  st.just(['&', inv, ['~', g]]), st.just(['|', ['<=', ['v', v], ['+', e0, ['n', d]]], g])))
+            k = ['seq', ['asg', v, e0], ['while', g, inv, body]]
+            return {'kind': 'vc', 'com': k, 'pre': draw(st.one_of(st.just(['true']), st.just(['<=', e0, bound]))),
+                    'post': post, 'sseed': draw(sseed)}
+
+        @st.composite
         def rl(draw):
+            if draw(st.integers(0, 4)) == 2:
+                return draw(stale())
             k = draw(rloop())
             if draw(st.booleans()):
                 k = ['seq', draw(small_lf), k]
